@@ -7,6 +7,20 @@ V = os.path.dirname(os.path.dirname(os.path.abspath(__file__)))
 props = [json.loads(l) for l in open(os.path.join(V, 'properties.jsonl'))]
 
 CLAIMED = {
+    'C15': dict(
+        text='MC_VMSA: TLC checks the short-descriptor walk, domain and permission checks of VMSA.tla against the property per '
+             'descriptor type (fault, page table -> fault / large / small page, section, supersection) x AP/APX x domain x DACR '
+             'field x SCTLR.{M,AFE} x TTBCR.{N,PD0,PD1} x FCSE PID x VA placement x R/W x privilege: physical address by block '
+             'size, fault kind in priority order with level and domain in DFSR, DFAR, flat map with the MMU off (4e5 states '
+             'quick). Conformance: random first/second-level tables written into the RAM of a VMSA-configured instance '
+             '(both SCTLR.EE settings), TTBCR.N 0..7, PD0/PD1, DACR, AFE, TRE, FCSE; translate_address() and LDR/STR are '
+             'executed and physical address, DFSR, DFAR and abort bookkeeping are judged by TLC.',
+        note='long-descriptor (LPAE) walks, stage 2 translation and faults taken to Hyp mode are reported as unmodelled and '
+             'not claimed; with SCTLR.TRE = 0 the emulator reaches its documented mock hook (outcome notimpl); memory '
+             'attributes other than the memory type used for alignment faults are not compared.',
+        technique='TLC model checking of the VMSA spec + TLC trace validation of translate_address() and loads/stores',
+        ref='DESIGN.md §4 C15'),
+
     'C20': dict(
         text='MC_Multi: TLC explores every interleaving of the creation and steps of two instances over 4 configurations '
              '(PMSA v6, PMSA v7, VMSA v7, PMSA v6 without security extensions) x 4 configuration-sensitive programs and checks '
